@@ -645,8 +645,8 @@ func Harness_Custom_To() {
 	vrt.CheckNoPanic("C17/Cu/copyto:no-panic")
 	v, ok := tf.Attrs["c"].(hookValue)
 	if dropType {
-		vrt.Assert("C17/Cu/c:missing-type-is-diagnostic", countWriteMissingC17(d, "Cu.C") == 1)
-		vrt.Assert("C17/Cu/c:hook-not-called-without-type", hookCalls["CopyToStrCustom"] == 0)
+		vrt.Assert("C06+C17/Cu/c:missing-type-is-diagnostic", countWriteMissingC17(d, "Cu.C") == 1)
+		vrt.Assert("C06+C17/Cu/c:hook-not-called-without-type", hookCalls["CopyToStrCustom"] == 0)
 	} else {
 		vrt.Assert("C17/Cu/c:stores-hook-result", ok && v.Hook == "CopyToStrCustom")
 		vrt.Assert("C17/Cu/c:hook-gets-field-value", v.Arg == string(obj.C))
@@ -710,7 +710,7 @@ func Harness_Custom_From() {
 		}
 	}
 	if missing {
-		vrt.Assert("C17/Cu/c:missing-attribute-is-diagnostic", nm == 1)
+		vrt.Assert("C06+C17/Cu/c:missing-attribute-is-diagnostic", nm == 1)
 		vrt.Assert("C17/Cu/c:field-only-written-by-hook", string(obj.C) == prior)
 	} else {
 		vrt.Assert("C17/Cu/c:no-diagnostic", nm == 0)
